@@ -60,7 +60,7 @@ SOLVER_WEIGHTS = ["diag", "qr", "qr", "lu", "lu", "chol", "chol", "chol", "ldl",
 
 
 def budget(tier):
-    return {"examples": 4000 if tier == "quick" else 80000, "shards": 16, "shrink": 300 if tier == "quick" else 1500}
+    return {"examples": 12000 if tier == "quick" else 160000, "shards": 16, "shrink": 300 if tier == "quick" else 1500}
 
 
 # ---------------------------------------------------------------------------------------------------------------
